@@ -156,6 +156,16 @@ def check_pair(prop, pair, tier, keep):
         res.update(status="error", reason="goto-cc failed: " + (err or out)[-600:])
         res["wall_s"] = time.time() - t0
         return res
+    if pair.get("must_define"):
+        rc0, out0, err0, _ = run(["goto-instrument", "--list-goto-functions", agb], 120, 8)
+        have = set(m.group(1) for m in re.finditer(r"^(\S+) /\* [^*]*\*/$", out0, re.M) if "body not available" not in m.group(0))
+        missing = [n for n in pair["must_define"] if n not in have]
+        if missing:
+            res["status"] = "failed"
+            res["failed"] = [{"id": "defined." + n, "text": "required entry point %s is not defined by the translation unit" % n, "loc": {}} for n in missing]
+            res["obligations"] = len(pair["must_define"])
+            res["wall_s"] = time.time() - t0
+            return res
     final = agb
     mode = pair.get("mode", "dfcc")
     if mode == "dfcc":
@@ -287,7 +297,7 @@ def check_pair(prop, pair, tier, keep):
         res.update(status="error", reason="solver error (out of memory?): obligations with status ERROR")
         res["wall_s"] = time.time() - t0
         return res
-    if not pair.get("noreach"):
+    if not pair.get("noreach") and not res["failed"]:      # a failed obligation blocks what follows it: report it, not vacuity
         if reach is None:
             res.update(status="error", reason="harness has no VC_REACH marker")
         elif reach != "FAILURE":
